@@ -161,8 +161,14 @@ def run(tier):
     res = Result(PID)
     bound = 2
     st = explore.explore(Lifo("line"), params(tier), bound)
+    ix = None
+    if tier != "quick":
+        ix = explore.extra(st, explore.hybrid(Lifo("instr")), [dict(p, bound=2.015) for p in params(tier)[:6]], 2.015, 900,
+                           "first 6 parameter sets at instruction granularity, two preemptions of which at most one inside a source line")
     fill(res, st, bound, "line", "; consumer parked in a gated handler, 0-2 pending events, fifo/lifo/default/both subscriptions made "
          "before or after start, 1-2 publications by the fabric or by another active object, one racing post_fifo; per-parameter bound 1-2")
+    if ix:
+        res.coverage["instruction_extra"] = ix
     if len(st.outcomes) < 2 and not res.violations:
         raise ToolingError("harness did not collide")
     res.assumptions = ["front = the end the consumer takes from (popleft), as post_lifo uses it"]
